@@ -2,7 +2,8 @@
    Proved for ARBITRARY bytecode (generated or not: named loops, regex literals, replace commands
    included), every text, every window. *)
 From Model Require Import Engine.
-From Proofs Require Import RefineBase Faithful.
+From Spec Require Import Sem.
+From Proofs Require Import RefineBase Faithful VarsSubstring.
 
 (* Every core the VM holds - the running one and every checkpoint - has its position inside the
    text, matched text = text[start..pos), and line/column in step (CoreInv); one step preserves it. *)
@@ -35,6 +36,16 @@ Proof. exact replace_all_same. Qed.
 Print Assumptions C03_replace_same_matches.
 
 (* non-vacuity: a two-line text, matches on both lines *)
+(* The variables: in the specification (whose first outcome is what the VM reports, C01/C02) every
+   string variable of every outcome of an attempt started at [off] is text[a,b) with
+   off <= a <= b <= the outcome's end - a substring of the match value text[off,end), lying inside it. *)
+Theorem C03_variables_are_substrings :
+  forall text start defs r off l, Sem.outs text start defs r (off, []) l -> off <= length text ->
+  Forall (fun q => forall n v, alookup (snd q) n = Some (VStr v) ->
+                   exists a b, off <= a /\ a <= b /\ b <= fst q /\ v = sub text a b) l.
+Proof. exact VarsSubstring.vars_substring_lemma. Qed.
+Print Assumptions C03_variables_are_substrings.
+
 Example C03_witness :
   exists m1 m2, find_matches 100 [IMatchLit false false [98]%N] [97; 98; 10; 98]%N true 0 0 0 = SOk [m1; m2] /\
     (mlstart m2, mcstart m2, mcend m2) = (2, 1, 2) /\ (mstart m1, mend m1) = (1, 2).
